@@ -49,6 +49,7 @@ inductive Mut where
   | flip (pos bit : Nat)
   | cut (k : Nat)
   | cbflip (i pos bit : Nat)
+  | fill (pos len v : Nat)   -- bytes [pos, pos+len) all set to v (a zero-filled or 0xFF-filled marker)
 
 def Mut.describe : Mut → String
   | .id => "intact file"
@@ -56,6 +57,7 @@ def Mut.describe : Mut → String
   | .flip p b => s!"bit {b} of byte {p} flipped"
   | .cut k => s!"file cut after {k} bytes"
   | .cbflip i p b => s!"callback failing at record {i} and bit {b} of byte {p} (in that block's sync marker) flipped"
+  | .fill p l v => s!"bytes {p}..{p + l - 1} all set to {v}"
 
 def expandMuts : List Sexp → Option (List Mut)
   | [] => some []
@@ -63,6 +65,7 @@ def expandMuts : List Sexp → Option (List Mut)
   | .list [.atom "cb", i] :: r => do pure (.cb (← asNat i) :: (← expandMuts r))
   | .list [.atom "flip", p, b] :: r => do pure (.flip (← asNat p) (← asNat b) :: (← expandMuts r))
   | .list [.atom "cbflip", i, p, b] :: r => do pure (.cbflip (← asNat i) (← asNat p) (← asNat b) :: (← expandMuts r))
+  | .list [.atom "fill", p, l, v] :: r => do pure (.fill (← asNat p) (← asNat l) (← asNat v) :: (← expandMuts r))
   | .list [.atom "fliprange", lo, hi] :: r => do
     let lo ← asNat lo; let hi ← asNat hi
     let fl := (List.range (hi - lo)).flatMap fun d => (List.range 8).map fun b => Mut.flip (lo + d) b
@@ -234,6 +237,15 @@ def judgeValid (c : FileCase) (it : Intact) (m : Mut) (del : List String) (res :
     else if boundary ∧ res != "ok" then some s!"cut at {k} (end of header or block): result {res}"
     else if !boundary ∧ res != "err" then some s!"cut at {k} (not a boundary): result {res}, an error is required"
     else none
+  | .fill pos len v =>
+    -- generated for sync markers only: a marker whose bytes are all `v` differs from the (random) marker of the file
+    if (c.file.drop pos).take len == List.replicate len (UInt8.ofNat v) then none
+    else if it.hdrLen - 16 ≤ pos ∧ pos < it.hdrLen then
+      (if it.blocks.isEmpty then none else errUpTo s!"header sync marker replaced by {len} bytes {v}" (through 0))
+    else
+      match it.blocks.zipIdx.find? (fun (b, _) => b.payEnd ≤ pos ∧ pos < b.stop) with
+      | some (_, i) => errUpTo s!"sync marker of block {i} replaced by {len} bytes {v}" (through i)
+      | none => none
   | .flip pos _ =>
     if pos < 4 then
       (if res != "err" then some "wrong magic accepted" else if del != [] then some "records delivered from a file with wrong magic" else none)
@@ -349,6 +361,7 @@ def c07c08 (forCuts : Bool) (op : String) (args : List Sexp) : Verdict :=
             | .id | .cb _ => c.file
             | .flip p b => flipBit c.file p b
             | .cbflip _ p b => flipBit c.file p b
+            | .fill p l v => c.file.take p ++ List.replicate (min l (c.file.length - p)) (UInt8.ofNat v) ++ c.file.drop (p + l)
             | .cut k => c.file.take k
           if res == "skipped" then acc else
           match ids.mapM (fun i => c.recs[i]?) with
@@ -396,6 +409,7 @@ def c07c08 (forCuts : Bool) (op : String) (args : List Sexp) : Verdict :=
             | some (.cb _) => "callback"
             | some (.cut _) => "cuts"
             | some (.cbflip _ _ _) => "callback+damaged-marker"
+            | some (.fill _ _ _) => "filled-marker"
             | some (.flip p _) =>
               match intact with
               | some it =>
